@@ -400,7 +400,26 @@ static void run_dag(mt_case * c, int prop) {
   o.worker_specific_state_array = 1; o.gpl_file_yes = 0; o.dot_file_yes = 0; o.text_file_yes = 0; o.dag_file_yes = 1; o.stat_file_yes = 1; o.verbose_level = getenv("MT_DAG_VERBOSE") ? atoi(getenv("MT_DAG_VERBOSE")) : 0;
   nfiles = rd_range(r, 1, 50);
   for (int i = 0; i < nfiles; i++) snprintf(fnames[i], sizeof fnames[i], "src_%d.c", i * 7 + 1);
-  nops = 0; gen_task(r, 0);
+  nops = 0;
+  /* program shape: the grammar, or (one case in eight) a deep chain / a wide fan, the shapes that keep more than a
+     hundred nodes pending at the same instant of the chronological replay */
+  unsigned shape = c->cfg.n > 1 ? (c->cfg.p[1] & 15) : 0, shape_arg = c->cfg.n > 2 ? c->cfg.p[2] : 0;
+  if (c->gen < 1) shape = 0;
+  if (shape == 15) {
+    int d = (int[]){ 99, 100, 101, 150, 300, 64 }[shape_arg % 6];
+    for (int i = 0; i < d; i++) { push(OP_SECTION, r); push(OP_CREATE, r); }
+    push(OP_END, r);
+    for (int i = 0; i < d; i++) { push(OP_WAIT, r); push(OP_END, r); }
+    if (shape_arg & 64) { o.collapse_max = 0; o.collapse_max_count = 0; o.uncollapse_min = 0; o.node_count_target = 0; o.prune_threshold = 100000; }
+    mt_label("deep_chain");
+  } else if (shape == 14) {
+    int wdt = (int[]){ 99, 100, 101, 150, 300, 64 }[shape_arg % 6];
+    push(OP_SECTION, r);
+    for (int i = 0; i < wdt; i++) { push(OP_CREATE, r); push(OP_END, r); }
+    push(OP_WAIT, r); push(OP_END, r);
+    if (shape_arg & 64) { o.collapse_max = 0; o.collapse_max_count = 0; o.uncollapse_min = 0; o.node_count_target = 0; o.prune_threshold = 100000; }
+    mt_label("wide_fan");
+  } else gen_task(r, 0);
   skip_task(0);
   g_defer = (b0 >> 3) % 3 != 0;   /* one case in three keeps the serial child-first order throughout */
   int nsec = 0, ncreate = 0, nother = 0;
@@ -409,7 +428,7 @@ static void run_dag(mt_case * c, int prop) {
           prop, W, nops, nsec, ncreate, nother, nfiles, o.collapse_max, o.uncollapse_min, o.collapse_max_count, o.node_count_target, o.prune_threshold, o.chk_level);
   for (int i = 0; i < nops && i < 120; i++) mt_desc("%s", (const char *[]){ "(", "C", "o", ")w", "E" }[ops[i].op]);
   mt_desc("\n schedule: %s\n", g_defer ? "children run child-first, in a later window of the creating section, or after the parent entered its wait (generated per create)" : "serial child-first");
-  mt_hash(c->prog.p, c->prog.pos); mt_hash_u(b0 % 8 + 8 * (unsigned)g_defer);
+  mt_hash(c->prog.p, c->prog.pos); mt_hash_u(b0 % 8 + 8 * (unsigned)g_defer + 64 * shape + 1024 * (shape >= 14 ? shape_arg : 0));
   mt_flush_early();
   char dir[128], prefix[160], dagp[200], statp[200];
   snprintf(dir, sizeof dir, "/tmp/mtdag.%d", (int)getpid()); mkdir(dir, 0700);
